@@ -89,11 +89,29 @@ def _err(tag, pool):
     return tag
 
 
-def _case(c, pool):
-    return "(mkCase %s %s %s %s %s %s %s %s %s)" % (
+def _cell(c):
+    return "(CNum %s)" % g.z(c["id"]) if c["num"] else "CText"
+
+
+def _shape(sh, pool):
+    return "(mkShape %s %s %s %s %s %s)" % (
+        g.lst([_cell(c) for c in sh["subs"]]), g.b(sh["sub_ok"]), g.lst([_cell(c) for c in sh["gullies"]]), g.b(sh["gully_ok"]),
+        g.lst(["(%s, %s)" % (_cell(a["pu"]), pool.s(a["type"])) for a in sh["actions"]]), g.b(sh["action_ok"]))
+
+
+def _data_src(e, pool, remap):
+    if "shape" in e:
+        return "(SrcTables %s %s)" % (_shape(e["shape"], pool), cg.nat(remap(e["di"])))
+    return "(SrcClass %s)" % cg.nat(e["class"])
+
+
+def _case(c, pool, remap):
+    return "(mkCase %s %s %s %s %s %s %s %s %s %s %s %s)" % (
         _config(c["config"], pool), g.lst([pool.s(p) for p in c["readable"]]),
-        g.lst(["(%s, %s)" % (pool.s(e["k"]), cg.nat(e["v"])) for e in c["data"]]),
-        g.b(c["out_is_file"]), g.b(c["out_creatable"]), g.b(c["profile_dir_ok"]), g.lst([cg.nat(x) for x in c["outcomes"]]),
+        g.lst(["(%s, %s)" % (pool.s(e["k"]), _data_src(e, pool, remap)) for e in c["data"]]),
+        g.lst(["(%s, %s)" % (pool.s(e["k"]), g.lst([pool.s(f) for f in e["v"]])) for e in c.get("data_files", [])]),
+        g.b(c["out_is_file"]), g.b(c["out_creatable"]), g.b(c["profile_dir_ok"]), g.b(c["profile_creatable"]),
+        g.b(c["file_creatable"]), g.lst([cg.nat(x) for x in c["outcomes"]]),
         g.lst([_err(t, pool) for t in (c["errs"] or [])]), g.lst([pool.s(f) for f in (c["summaries"] or [])]))
 
 
@@ -126,7 +144,9 @@ Theorem C19_crem_accepted_runs_partial : forall E c l sc choices T0 a,
   load facts19 c = Done l -> interpret facts19 tables19 E l = Done sc ->
   run_preconditions E sc = true -> choices_ok sc choices ->
   exists summaries, run_model E sc choices T0 a = Completed summaries /\\ List.length summaries = Z.to_nat (l_run_number l)
-                    /\\ (1 <= l_run_number l)%%Z.
+                    /\\ (1 <= l_run_number l)%%Z
+                    /\\ summaries = map (summary_name sc) (seq 1 (Z.to_nat (l_run_number l)))
+                    /\\ (writes_files sc = true -> NoDup summaries).
 Proof. exact (accepted_runs facts19 tables19 C19_facts_ok C19_tables_ok). Qed.
 
 Print Assumptions C19_facts_ok.
@@ -234,19 +254,23 @@ def run(ctx):
     dsl = [l for l in lines if l.get("kind") == "dataset"]
     nshards = 0
     if compiled and dsl and cases:
-        dterm = cg.dataset(dsl[0])
+        dterms = [cg.dataset(d) for d in dsl]     # [0] the shipped data set, then the generated data sources the real loader took
         jobs = []
         nsh = max(1, (len(cases) + SHARD - 1) // SHARD)
         for si, shard in enumerate([cases[k::nsh] for k in range(nsh)]):   # round robin: the costly limit documents are spread
             pool = Pool()
-            items = [_case(c, pool) for c in shard]
+            # a shard only carries the data sets its own cases refer to
+            used = [0] + sorted({e["di"] for c in shard for e in c["data"] if "shape" in e and e["di"] != 0})
+            remap = lambda di, used=used: used.index(di)
+            items = [_case(c, pool, remap) for c in shard]
             body = cg.HEADER + "From Coq Require Import String.\nFrom Crem Require Import Base.Res Params ConfigLoops Config ConfigCorr.\n" \
                 "From CremGen Require Import Specs19 Facts19.\nOpen Scope string_scope.\n"
             body += pool.defs()
             body += "Definition tables19 : tables := %s.\n" % tables
-            body += "Definition d0 : dataset :=\n  %s.\n" % dterm
+            for j, di in enumerate(used):
+                body += "Definition d%d : dataset :=\n  %s.\n" % (j, dterms[di])
             body += "Definition cases : list case := [\n  " + ";\n  ".join(items) + "\n].\n"
-            body += "Definition M := Eval vm_compute in mismatches facts19 tables19 d0 cases.\nPrint M.\n"
+            body += "Definition M := Eval vm_compute in mismatches facts19 tables19 [%s] cases.\nPrint M.\n" % "; ".join("d%d" % j for j in range(len(used)))
             jobs.append((si, shard, body))
         with ThreadPoolExecutor(max_workers=4) as ex:
             results = list(ex.map(lambda j: ctx.correspondence("cases_C19_%d" % j[0], j[2], ncases=len(j[1])), jobs))
@@ -266,7 +290,12 @@ def run(ctx):
         "rule": "one case = one generated TOML document (a base configuration of every annealer type x {catchment, dumb, multi-objective "
                 "dumb} model, every single perturbation of the key grammar on several bases -- absent / wrong type / boundary values incl. "
                 "0 and -1 / unknown keys / every enumerated text and an invalid one / all model types incl. NullModel / data source classes / "
-                "limits at 0, mid-range and above everything for all six variables -- and random combinations of 2-4 perturbations), executed "
+                "limits at 0, mid-range and above everything for all six variables; documents whose parts refer to each other: CSV data "
+                "sources written for the run whose tables disagree (gully / action rows in an unlisted subcatchment, duplicate rows, missing "
+                "and non-numeric cells, empty tables -- the model decides acceptance from the exported table shapes), CpuProfilePath = / above "
+                "/ inside OutputPath, = the data source's meta-file or a table file, = a directory, OutputPath empty / = the data directory, "
+                "scenario names built from the saver's id / label / file-name patterns with three runs, floats at the edge of the formatters' "
+                "and RoundFloat's range -- and random combinations of 2-4 perturbations), executed "
                 "through the real RetrieveConfigFromString -> Interpret -> Scenario.Run() in a child process (limit-bearing documents "
                 "several times); evaluations = child executions; distinct_nontrivial = distinct documents",
         "exhaustive": False, "documents": len(cases), "correspondence_shards": nshards,
@@ -283,8 +312,12 @@ def run(ctx):
         "the abstract configuration is what the TOML decoder makes of the document (per key: absent / wrong type / value); the generator's "
         "reading of its own documents is checked against the decoder's behaviour by the correspondence",
         "oracles for what lives outside the configuration: file readability, the class of the data source (not loadable / malformed / the "
-        "exported well-formed data set), output path usable, CPU-profile file creatable, Excel available, RoundFloat range of the "
-        "multi-objective dumb model's initial values",
+        "exported well-formed data set; for the generated data sources the SHAPE of their three tables as read by the harness's own CSV "
+        "reader -- acceptance is then decided by the model -- and the constants the real model derives from accepted ones), the files a data "
+        "source consists of, output path usable, CPU-profile file creatable, summary file name creatable, Excel available, RoundFloat "
+        "range of the multi-objective dumb model's initial values; all asked of the file system in a directory laid out like the children's",
+        "paths are compared lexically (filepath.Abs/Clean transcribed); the fix also compares with os.SameFile, which the generator does not "
+        "exercise (no aliases of written paths: a written path must never lead through the fixture symlink into the repository)",
         "random choices (picks of the randomisation loops, acceptance decisions, moves, return-to-base selections) are universally quantified; "
         "termination of the loops is relative to boundedly fair pick lists (every index recurs in each of n windows)",
         "A-FLOAT (DESIGN 3a) for the catchment valuation under a limit",
